@@ -104,6 +104,7 @@ fn poll_as<T>(actor: usize, fut: &mut Fut<T>) -> Result<Poll<T>, String> {
 #[derive(Clone, Copy, Debug, PartialEq)]
 enum Macro {
     T(usize),
+    B(usize),
     S(usize),
     C(usize),
     G(usize),
@@ -118,6 +119,7 @@ impl Macro {
     fn text(&self) -> String {
         match self {
             Macro::T(t) => format!("T{t}"),
+            Macro::B(t) => format!("B{t}"),
             Macro::S(t) => format!("S{t}"),
             Macro::C(t) => format!("C{t}"),
             Macro::G(t) => format!("G{t}"),
@@ -139,6 +141,7 @@ impl Macro {
         let t: usize = s.get(1..)?.parse().ok()?;
         match s.as_bytes()[0] {
             b'T' => Some(Macro::T(t)),
+            b'B' => Some(Macro::B(t)),
             b'S' => Some(Macro::S(t)),
             b'C' => Some(Macro::C(t)),
             b'G' => Some(Macro::G(t)),
@@ -151,6 +154,8 @@ impl Macro {
 #[derive(Clone, Copy, Debug, PartialEq)]
 enum Obs {
     Idle,
+    /// `track` called while the tracker lock was held; the call is still queued on the lock
+    Queued,
     Tracked,
     Sent,
     Gap,
@@ -172,10 +177,14 @@ struct Sim {
     futs: Vec<Option<Fut<R>>>,
     obs: Vec<Obs>,
     gate_c: Vec<Arc<Notify>>,
+    tracked_flags: Vec<Arc<AtomicBool>>,
+    lock_queue: Vec<usize>,
     queue: VecDeque<R>,
     pipe: Pipe,
     /// "nt": `mark_as_done` set the result / notified while a submitter of that id sat in the gap
     nt: bool,
+    /// two or more `track` calls were queued on the tracker lock at once
+    nt_queued: bool,
 }
 
 fn res_str(r: R) -> String {
@@ -192,9 +201,12 @@ impl Sim {
             futs: (0..n).map(|_| None).collect(),
             obs: vec![Obs::Idle; n],
             gate_c: (0..n).map(|_| Arc::new(Notify::new())).collect(),
+            tracked_flags: (0..n).map(|_| Arc::new(AtomicBool::new(false))).collect(),
+            lock_queue: vec![],
             queue: VecDeque::new(),
             pipe: Pipe::Idle,
             nt: false,
+            nt_queued: false,
         }
     }
 
@@ -231,14 +243,15 @@ impl Sim {
     fn step(&mut self, m: Macro) -> String {
         let n = self.n();
         match m {
-            Macro::T(t) | Macro::S(t) | Macro::C(t) | Macro::G(t) | Macro::W(t) if t >= n => "x".into(),
-            Macro::T(t) => {
+            Macro::T(t) | Macro::B(t) | Macro::S(t) | Macro::C(t) | Macro::G(t) | Macro::W(t) if t >= n => "x".into(),
+            Macro::T(t) | Macro::B(t) => {
+                let keep_queued = matches!(m, Macro::B(_));
                 if self.obs[t] != Obs::Idle {
                     return "x".into();
                 }
                 let tracker = self.tracker.clone();
                 let id = self.ids[t];
-                let tracked = Arc::new(AtomicBool::new(false));
+                let tracked = self.tracked_flags[t].clone();
                 let flag = tracked.clone();
                 let gate = self.gate_c[t].clone();
                 // Same order of calls as `Pipeline::process`: track, (send — done by the `S` step), ready.
@@ -254,7 +267,15 @@ impl Sim {
                         self.obs[t] = Obs::Tracked;
                         "ok".into()
                     }
-                    // write lock held by a parked `mark_as_done`: the call does not return; cancel it
+                    // write lock held by a parked `mark_as_done`: the call does not return …
+                    Ok(Poll::Pending) if keep_queued => {
+                        // … `B`: leave it queued on the lock
+                        self.futs[t] = Some(fut);
+                        self.obs[t] = Obs::Queued;
+                        self.lock_queue.push(t);
+                        "queued".into()
+                    }
+                    // … `T`: cancel it
                     Ok(Poll::Pending) => "blocked".into(),
                     Ok(Poll::Ready(_)) => "?ready".into(),
                     Err(_) => {
@@ -349,6 +370,27 @@ impl Sim {
                 match poll_as(n, &mut fut) {
                     Ok(Poll::Ready(())) => {
                         self.note_gap_overlap(e);
+                        // the write lock is free again: the queued `track` calls get it (FIFO); poll them round-robin
+                        // until each one returned
+                        let queued = std::mem::take(&mut self.lock_queue);
+                        if queued.len() >= 2 {
+                            self.nt_queued = true;
+                        }
+                        for _ in 0..6 {
+                            for t in &queued {
+                                if self.obs[*t] == Obs::Queued {
+                                    match self.poll_sub(*t) {
+                                        Ok(Poll::Pending) if self.tracked_flags[*t].load(Ordering::SeqCst) => self.obs[*t] = Obs::Tracked,
+                                        Ok(Poll::Pending) => {}
+                                        Ok(Poll::Ready(_)) => self.obs[*t] = Obs::Panic,
+                                        Err(_) => self.obs[*t] = Obs::Panic,
+                                    }
+                                }
+                            }
+                        }
+                        if queued.iter().any(|t| self.obs[*t] == Obs::Queued) {
+                            return "?still-queued".into();
+                        }
                         "ok".into()
                     }
                     Ok(Poll::Pending) => "?pending".into(),
@@ -476,6 +518,10 @@ fn run_tracker_case(rt: &tokio::runtime::Runtime, ids: &[u64], steps: &[Macro]) 
                 }
             }
             Obs::Panic => Some(("expect-panic".to_string(), format!("submitter {t}: Task::ready panicked (result missing after wake-up)"))),
+            Obs::Wait if (0..ids.len()).any(|u| u != t && ids[u] == ids[t] && matches!(sim.obs[u], Obs::Done(_))) && sim.nt_queued => Some((
+                "same-id-submitter-orphaned".to_string(),
+                format!("submitter {t} (id {}) waits forever on a task that is not in the tracker map although another submission of the same operation completed: concurrent track() calls created two tasks for one id", ids[t]),
+            )),
             Obs::Wait => Some((
                 "lost-wakeup".to_string(),
                 format!("submitter {t} (id {}) registered its wait after mark_as_done had notified; it never returns although its task is done", ids[t]),
@@ -492,7 +538,7 @@ fn run_tracker_case(rt: &tokio::runtime::Runtime, ids: &[u64], steps: &[Macro]) 
             fail = Some(("harness-protocol".to_string(), format!("unexpected poll outcome {w}")));
         }
     }
-    (req, ans, sim.nt, fail, pre_drain)
+    (req, ans, sim.nt || sim.nt_queued, fail, pre_drain)
 }
 
 fn emit_tracker(out: &mut Out, rt: &tokio::runtime::Runtime, ids: &[u64], steps: &[Macro], kind: &str) {
@@ -501,11 +547,12 @@ fn emit_tracker(out: &mut Out, rt: &tokio::runtime::Runtime, ids: &[u64], steps:
     out.count(&format!("tracker:{kind}"));
     out.count(&format!("tracker:submitters={}", ids.len()));
     if nt {
-        out.count("tracker:mark-while-in-gap");
+        out.count("tracker:mark-while-in-gap-or-queued-tracks");
     }
     for w in ans.split(' ') {
         match w {
             "blocked" => out.count("outcome:track-blocked-by-write-lock"),
+            "queued" => out.count("outcome:track-queued-on-write-lock"),
             "notask" => out.count("outcome:mark-without-task"),
             "gap" => out.count("outcome:check-none→gap"),
             "x" => out.count("outcome:step-not-enabled"),
@@ -586,7 +633,8 @@ fn random_schedule(rng: &mut Rng, ids: &[u64], len: usize) -> Vec<Macro> {
     for _ in 0..len {
         let m = if rng.chance(1, 10) {
             let t = rng.below(n as u64 + 1) as usize; // may be out of range: answers `x`
-            match rng.below(9) {
+            match rng.below(10) {
+                9 => Macro::B(t),
                 0 => Macro::T(t),
                 1 => Macro::S(t),
                 2 => Macro::C(t),
@@ -607,7 +655,10 @@ fn random_schedule(rng: &mut Rng, ids: &[u64], len: usize) -> Vec<Macro> {
         } else {
             let t = rng.below(n as u64) as usize;
             match sim.obs[t] {
-                Obs::Idle => Macro::T(t),
+                Obs::Idle => {
+                    if matches!(sim.pipe, Pipe::Removed(..) | Pipe::Set(..)) && rng.chance(3, 4) { Macro::B(t) } else { Macro::T(t) }
+                }
+                Obs::Queued => Macro::Pr,
                 Obs::Tracked => Macro::S(t),
                 Obs::Sent => Macro::C(t),
                 Obs::Gap => {
@@ -657,6 +708,11 @@ fn emit_p(out: &mut Out, ids: &[u64], answers: Vec<String>, nt: bool, kind: &str
             (
                 "pipeline-thread-died".to_string(),
                 format!("the pipeline thread died (panic outside the task tracker) while working on submitter {}'s operation; submitter {t} and every later Pipeline::process call wait forever", die_at.unwrap_or(t)),
+            )
+        } else if a == "stuck" && kind == "stress" {
+            (
+                "same-id-submitter-orphaned".to_string(),
+                format!("{} threads called Pipeline::process with the same operation at once; thread {t} never returned (it waits on a task that is not in the tracker map)", ids.len()),
             )
         } else if a == "stuck" {
             (format!("{kind}-lost-wakeup"), format!("submitter {t} never returned although the pipeline finished its operation"))
@@ -817,6 +873,66 @@ fn threads_case(ids: &[u64], spin: u32) -> Vec<String> {
 
 // ------------------------------------------------------------------------------------------------
 
+/// Public path, no schedule points: `k` OS threads released by a barrier call `Pipeline::process` with the SAME
+/// operation (fresh operation every round, one pipeline for all rounds). Returns the number of rounds run.
+fn stress_same_operation(out: &mut Out, rt: &tokio::runtime::Runtime, rounds: usize, k: usize) {
+    use p2panda::operation::LogId;
+    use p2panda_core::test_utils::TestLog;
+    use p2panda_core::traits::Digest;
+    use p2panda_core::{PruneFlag, Topic};
+    use p2panda_store::SqliteStore;
+    use std::sync::{mpsc, Barrier};
+    ctx_reset(0);
+    // the pool's background tasks live on this runtime: it must keep running while the threads work
+    let _ = rt;
+    let mt = tokio::runtime::Builder::new_multi_thread().worker_threads(2).enable_all().build().unwrap();
+    let store = mt.block_on(SqliteStore::temporary());
+    let tasks = TaskTracker::new();
+    let pipeline = Pipeline::<LogId, (), Topic>::new(store, tasks.clone());
+    let topic = Topic::random();
+    let log = TestLog::new();
+    let ids = vec![1u64; k];
+    let mut failed_rounds = 0;
+    for round in 0..rounds {
+        let op = log.operation(format!("round {round}").as_bytes(), ());
+        let want = op.hash;
+        let barrier = Arc::new(Barrier::new(k));
+        let (tx, rx) = mpsc::channel::<(usize, bool)>();
+        for i in 0..k {
+            let ev = new_event(op.clone(), LogId::from_topic(topic), topic, PruneFlag::default());
+            let p = pipeline.clone();
+            let barrier = barrier.clone();
+            let tx = tx.clone();
+            std::thread::spawn(move || {
+                barrier.wait();
+                let r = futures::executor::block_on(p.process(ev));
+                let _ = tx.send((i, r.hash() == want));
+            });
+        }
+        drop(tx);
+        let mut answers = vec!["stuck".to_string(); k];
+        let deadline = std::time::Instant::now() + Duration::from_secs(5);
+        let mut got = 0;
+        while got < k {
+            match rx.recv_timeout(deadline.saturating_duration_since(std::time::Instant::now())) {
+                Ok((i, own)) => {
+                    answers[i] = if own { "d1".into() } else { "foreign".into() };
+                    got += 1;
+                }
+                Err(_) => break,
+            }
+        }
+        let bad = got < k;
+        emit_p(out, &ids, answers, true, "stress", false);
+        if bad {
+            failed_rounds += 1;
+            if failed_rounds >= 2 {
+                break; // the orphaned threads never come back; two witnesses are enough
+            }
+        }
+    }
+}
+
 fn main() {
     let args = Args::parse();
     let mut out = Out::new(&args.out);
@@ -860,6 +976,29 @@ fn main() {
         &[Macro::T(0), Macro::S(0), Macro::C(0), Macro::Pr, Macro::Pm, Macro::Ps, Macro::Pn, Macro::G(0)],
         "witness",
     );
+
+    // 0b. `track` calls of ONE operation queued on the tracker's lock while `mark_as_done` holds it, released together
+    {
+        use Macro::*;
+        let w: Vec<(Vec<u64>, Vec<Macro>)> = vec![
+            (vec![1, 1, 2], vec![T(2), S(2), Pr, Pm, B(0), B(1), Ps, Pn]),
+            (vec![1, 1, 2], vec![T(2), S(2), Pr, Pm, Ps, B(1), B(0), Pn, S(1), S(0)]),
+            (vec![1, 1, 1, 2], vec![T(3), S(3), Pr, Pm, B(0), B(1), B(2), Ps, Pn]),
+            (vec![1, 1, 1], vec![T(0), S(0), Pr, Pm, B(1), B(2), Ps, Pn]),
+            (vec![1, 2, 1, 2], vec![T(0), S(0), Pr, Pm, B(2), B(1), B(3), Ps, Pn, S(3), S(2), S(1)]),
+            (vec![1, 1, 2], vec![T(2), S(2), Pr, Pm, B(0), T(0), B(1), B(1), Ps, T(1), Pn, T(0)]),
+        ];
+        for (ids, steps) in w {
+            emit_tracker(&mut out, &paused, &ids, &steps, "queued-tracks");
+        }
+    }
+
+    // 0c. public path stress: threads released by a barrier submit the same operation
+    let (rounds, k) = match args.tier {
+        Tier::Quick => (300, 4),
+        _ => (3000, 4),
+    };
+    stress_same_operation(&mut out, &live, rounds, k);
 
     // 1. exhaustive: one submitter with every mark_as_done sub-step; two submitters (same id / different ids)
     let mut exhaustive = true;
@@ -917,7 +1056,7 @@ fn main() {
     }
 
     out.finish(
-        "tracker-level: every maximal interleaving of track/send/ready(check | register+wait) with recv/remove/set-result/notify for 1 submitter (all sub-steps) and 2 submitters (same id and different ids), random schedules for 2-4 submitters incl. not-enabled steps; real Pipeline thread with submitters parked between check and wait; free-running OS threads (thorough). non-trivial = mark_as_done set the result or notified while a submitter of that operation sat between its result check and its wait (tracker level), or a submitter was parked there until the pipeline thread went idle (pipeline level)",
+        "tracker-level: every maximal interleaving of track/send/ready(check | register+wait) with recv/remove/set-result/notify for 1 submitter (all sub-steps) and 2 submitters (same id and different ids), random schedules for 2-4 submitters incl. not-enabled steps; real Pipeline thread with submitters parked between check and wait; free-running OS threads (thorough). track calls of one operation queued on the tracker lock and released together; barrier-released threads submitting the SAME operation through Pipeline::process; non-trivial = mark_as_done set the result or notified while a submitter of that operation sat between its result check and its wait, or >= 2 track calls were queued on the lock at once (tracker level), a same-operation stress round, or a submitter was parked there until the pipeline thread went idle (pipeline level)",
         false,
     );
 }
